@@ -430,20 +430,17 @@ def SVEntry.amp2 {K : Type} (e : SVEntry K GQ) : ℚ := GQ.normSq e.pamp / (e.no
 def svGet [CommRing R] {K : Type} [DecidableEq K] (sv : List (SVEntry K R)) (k : K) : R :=
   ((sv.filter fun e => e.key = k).map (·.pamp)).sum
 
-/-- drop the listed positions of an annotated state (`BasicState.remove_modes`) -/
-def removeModesA (modes : List ℕ) (k : AFock) : AFock :=
-  (k.zipIdx.filter fun p => !modes.contains p.2).map (·.1)
-
-/-- `post_select_statevector(sv, postselect, heralds, keep_heralds)` as called by
+/-- `post_select_statevector(sv, postselect, heralds, keep_heralds=True)` as called by
 `_postprocess_sv` of the polarisation layer: keep the entries whose photon counts satisfy heralds
-and post-selection, drop the heralded modes when asked, and re-normalise (the common factor
-`1/√(retained mass)` is external: the retained mass is returned with the entries).  No photon-number
-filter on this path. -/
+and post-selection and re-normalise (the common factor `1/√(retained mass)` is external: the
+retained mass is returned with the entries).  No photon-number filter on this path.
+Only `keep_heralds = True` (the default of a simulator) is modelled: with `False` the code calls the
+native `BasicState.remove_modes` on annotated states (which does not keep the annotations in place
+unless the last mode is removed) and *adds* the amplitudes of states that differ only in the
+polarisation of a dropped photon — neither is described here. -/
 def selectSV (c : SimSpec.Cond) (sv : List (SVEntry AFock GQ)) : List (SVEntry AFock GQ) × ℚ :=
   let kept := sv.filter fun e => SimSpec.logicOk c (spatialOf e.key)
-  (kept.map fun e =>
-      ⟨if c.keepHeralds then e.key else removeModesA (c.heralds.map (·.1)) e.key, e.pamp, e.norm2⟩,
-    (kept.map SVEntry.amp2).sum)
+  (kept, (kept.map SVEntry.amp2).sum)
 
 /-! ### `convert_polarized_state(inverse=True)` and `use_symbolic=True`
 
